@@ -88,9 +88,13 @@ class ListTensor(Operator):
             and sub_equals(expressions, 0, 0)
         ):
             indices = [sub(e, 0, 1).indices() for e in expressions]
+            # The remaining indices must be exactly the axes of each component tensor,
+            # in order: [v[0, j, i]^(i, j), ...] or rows with a free index are not v
             if all(
-                i[0] == k and all(isinstance(subindex, Index) for subindex in i[1:])
-                for k, i in enumerate(indices)
+                i[0] == k
+                and all(isinstance(subindex, Index) for subindex in i[1:])
+                and i[1:] == sub(e, 1).indices()
+                for k, (i, e) in enumerate(zip(indices, expressions))
             ):
                 return sub(e0, 0, 0)
 
